@@ -170,6 +170,21 @@ func runC05(c *Ctx, ambient bool) {
 		"lfs.fetchrecentcommitsdays": fmt.Sprint(commitsDays),
 		"lfs.pruneoffsetdays":        fmt.Sprint(offsetDays),
 	})
+	// the remote prune checks against may be another one than the default,
+	// with its own LFS server (lfs.pruneremotetocheck, remote.<name>.lfsurl)
+	pruneRemote, pfr := "origin", w.Front
+	if ambient && t.Bool(1, 5, "prune-remote-is-a-second-remote") {
+		remote2 := w.InitBare("remote2.git")
+		w.MustGit(u1, "remote", "add", "second", remote2)
+		pfr = w.AddServer()
+		w.RemoteSrv = map[string]*Front{remote2: pfr}
+		w.MustGit(u1, "config", "--unset", "lfs.url")
+		w.MustGit(u1, "config", "remote.origin.lfsurl", w.LFSURL())
+		w.MustGit(u1, "config", "remote.second.lfsurl", pfr.Base+pfr.Srv.APIPrefix)
+		w.MustGit(u1, "config", "lfs.pruneremotetocheck", "second")
+		pruneRemote = "second"
+		c.Probe("prune-remote-is-a-second-remote")
+	}
 	// history with partial pushes
 	n := 5 + t.Choose(12, "n-steps")
 	for i := 0; i < n; i++ {
@@ -185,6 +200,15 @@ func runC05(c *Ctx, ambient bool) {
 			}
 			w.Git(u1, args...)
 			h.log("%s", strings.Join(args, " "))
+			if pruneRemote != "origin" && t.Bool(1, 2, "push-to-prune-remote-too") {
+				for k := range args {
+					if args[k] == "origin" {
+						args[k] = pruneRemote
+					}
+				}
+				w.Git(u1, args...)
+				h.log("%s", strings.Join(args, " "))
+			}
 		} else {
 			h.Step()
 		}
@@ -287,13 +311,19 @@ func runC05(c *Ctx, ambient bool) {
 	serverLacks := map[string]bool{}
 	if verify {
 		var so []string
+		// (everything that is on neither server is "lacking" too: with two
+		// servers the prune remote's may never have received an object)
 		for o := range w.Srv.Store {
 			so = append(so, o)
 		}
 		sort.Strings(so)
 		for _, o := range so {
+			if _, has := pfr.Srv.Store[o]; !has {
+				serverLacks[o] = true
+				continue
+			}
 			if t.Bool(1, 4, "server-loses") {
-				delete(w.Srv.Store, o)
+				delete(pfr.Srv.Store, o)
 				serverLacks[o] = true
 			}
 		}
@@ -323,8 +353,8 @@ func runC05(c *Ctx, ambient bool) {
 	// branch or tag but from no remote-tracking ref of the prune remote
 	// ... and whose object is not referenced by anything the remote-tracking
 	// refs reach (an unpushed rename or re-add of pushed content is pushed).
-	pushedOids := w.ReachablePointers(u1, "--remotes=origin")
-	unpushed, _ := w.GitQ(u1, "rev-list", "--no-merges", "--branches", "--tags", "--not", "--remotes=origin")
+	pushedOids := w.ReachablePointers(u1, "--remotes="+pruneRemote)
+	unpushed, _ := w.GitQ(u1, "rev-list", "--no-merges", "--branches", "--tags", "--not", "--remotes="+pruneRemote)
 	for _, cm := range strings.Fields(unpushed) {
 		if len(cm) != 40 {
 			continue
